@@ -98,9 +98,12 @@ class DSL:
                 self.list_primitives.remove(P)
 
         # Now remove all UNIT as parameters from signatures
-        for P in self.list_primitives[:]:
+        for i, P in enumerate(self.list_primitives):
             if any(arg == UNIT for arg in P.type.arguments()):
-                P.type = P.type.without_unit_arguments()
+                # build a new primitive: the hash of a Primitive is cached at construction
+                self.list_primitives[i] = Primitive(
+                    P.primitive, P.type.without_unit_arguments()
+                )
 
     def __eq__(self, o: object) -> bool:
         return isinstance(o, DSL) and set(self.list_primitives) == set(
